@@ -6,6 +6,7 @@ import (
 	"encoding/json"
 	"fmt"
 	"os"
+	"runtime"
 	"runtime/debug"
 	"strconv"
 	"strings"
@@ -37,6 +38,7 @@ type summary struct {
 	From       int            `json:"from"`
 	To         int            `json:"to"`
 	Runs       int            `json:"runs"`
+	Evals      int64          `json:"evals"`
 	Steps      int64          `json:"steps"`
 	SimNanos   int64          `json:"sim_ns"`
 	WallS      float64        `json:"wall_s"`
@@ -66,23 +68,40 @@ var (
 	curInfo  atomic.Value // string
 )
 
+var (
+	curSeed int64
+	curTape atomic.Pointer[tape.Tape]
+)
+
 func runBubble(t *testing.T, spec *core.Spec, tp *tape.Tape, tier string, trace bool, run int) *core.Result {
 	var ctx *core.Ctx
 	var bubblePanic string
 	curStart.Store(time.Now().UnixNano())
+	curTape.Store(tp)
 	func() {
 		defer func() {
 			if r := recover(); r != nil {
 				bubblePanic = fmt.Sprint(r)
+				if os.Getenv("VERIF_DUMP_ON_HANG") != "" {
+					buf := make([]byte, 1<<20)
+					n := runtime.Stack(buf, true)
+					fmt.Fprintf(os.Stderr, "run %d: %s\n%s\n", run, bubblePanic, buf[:n])
+				}
 			}
 		}()
 		synctest.Test(t, func(*testing.T) {
 			ctx = core.NewCtx(spec.ID, tier, tp, trace)
+			ctx.Seed, ctx.Run = curSeed, run
 			defer func() {
 				if r := recover(); r != nil {
 					ctx.Failf(spec.ID+"/panic", "panic in run: %v\n%s", r, firstLines(string(debug.Stack()), 30))
 				}
 				ctx.RunCleanup()
+				// Fake time stops when the root goroutine exits, so bounded waits that are still pending
+				// (read deadlines of superseded gatherers, expiry timers) get 60 simulated seconds to run
+				// out; whatever is still blocked after that is a leak.
+				time.Sleep(60 * time.Second)
+				synctest.Wait()
 			}()
 			spec.Fn(ctx)
 		})
@@ -96,7 +115,10 @@ func runBubble(t *testing.T, spec *core.Spec, tp *tape.Tape, tier string, trace 
 		if !spec.HangIsViolation {
 			class = "harness/bubble-" + classifyBubblePanic(bubblePanic)
 		}
-		ctx.Failf(class, "%s", firstLines(bubblePanic, 6))
+		if os.Getenv("VERIF_DUMP_ON_HANG") != "" {
+			fmt.Fprintln(os.Stderr, bubblePanic)
+		}
+		ctx.Failf(class, "%s", firstLines(bubblePanic, 40))
 	}
 	return ctx.Finish(run)
 }
@@ -137,6 +159,7 @@ func TestWorker(t *testing.T) {
 		tier = "quick"
 	}
 	seed64, _ := strconv.ParseInt(os.Getenv("VERIF_SEED"), 10, 64)
+	curSeed = seed64
 	out := os.Getenv("VERIF_OUT")
 	wallBudget := time.Duration(envInt("VERIF_WALL_S", 3600)) * time.Second
 	runWatchdog := time.Duration(envInt("VERIF_RUN_WATCHDOG_S", 30)) * time.Second
@@ -162,6 +185,9 @@ func TestWorker(t *testing.T) {
 				info, _ := curInfo.Load().(string)
 				var h violationOut
 				_ = json.Unmarshal([]byte(info), &h)
+				if tp := curTape.Load(); tp != nil {
+					h.Tape = tp.Recorded()
+				}
 				h.Class = id + "/hang"
 				if !spec.HangIsViolation {
 					h.Class = "harness/hang"
@@ -170,6 +196,11 @@ func TestWorker(t *testing.T) {
 				h.Msg = fmt.Sprintf("run did not finish within %v of wall-clock time", runWatchdog)
 				sum.Hang = &h
 				write()
+				if os.Getenv("VERIF_DUMP_ON_HANG") != "" {
+					buf := make([]byte, 1<<20)
+					n := runtime.Stack(buf, true)
+					fmt.Fprintf(os.Stderr, "%s\n", buf[:n])
+				}
 				os.Exit(3)
 			}
 		}
@@ -189,6 +220,7 @@ func TestWorker(t *testing.T) {
 		info, _ := json.Marshal(violationOut{Seed: v.Seed, Run: v.Run, Tape: v.Tape})
 		curInfo.Store(string(info))
 		tp := tape.Replay(v.Tape)
+		curSeed = v.Seed
 		res := runBubble(t, spec, tp, tier, true, v.Run)
 		sum.Runs = 1
 		sum.Samples = []*core.Result{res}
@@ -223,6 +255,7 @@ func TestWorker(t *testing.T) {
 		res := runBubble(t, spec, tp, tier, trace, run)
 		sum.Runs++
 		sum.Steps += int64(res.Steps)
+		sum.Evals += int64(res.Evals)
 		sum.SimNanos += res.SimNanos
 		for k, v := range res.Faults {
 			sum.Faults[k] += v
